@@ -237,9 +237,9 @@ func run(c cfg, probes []probe, tag uint32) *result {
 	res := &result{f: msgfix.NewFindings()}
 	f := res.f
 	sr := &srvRec{reqs: map[int][]byte{}, rerr: map[int]error{}, serr: map[int]error{}, sent: map[int]bool{}}
-	var hwg sync.WaitGroup
+	var hwg msgfix.Group // not sync.WaitGroup: see msgfix.Group
 	handler := func(_ any, ss grpc.ServerStream) error {
-		hwg.Add(1)
+		hwg.Add()
 		defer hwg.Done()
 		md, _ := metadata.FromIncomingContext(ss.Context())
 		rid, _ := strconv.Atoi(first(md.Get("x-rid")))
@@ -607,7 +607,7 @@ func genProbes(rng *rand.Rand, c cfg) []probe {
 
 func TestVerifC21(t *testing.T) {
 	r := vlib.Start(t, "C21")
-	n := r.N(192, 3840)
+	n := r.N(192, 1920)
 	if light() {
 		n = 12
 	}
